@@ -5,8 +5,11 @@ import (
 	"math"
 	"sort"
 	"strings"
+	"sync/atomic"
 	"testing"
 	"time"
+
+	"github.com/celestiaorg/go-header/store"
 
 	"verif/vk"
 )
@@ -21,6 +24,11 @@ type c08Case struct {
 	// FailWrite: index (relative to the first write of the DeleteRange call) of the failing
 	// datastore write, -1 = no fault.
 	FailWrite int `json:"fail_write"`
+	// Parallel: run with the parallel deletion path forced (threshold hook = 2).
+	Parallel bool `json:"parallel,omitempty"`
+	// RejectFrom: the OnDelete handler rejects every height >= RejectFrom during the call
+	// (a part-way failure that can hit several parallel workers at once); 0 = off.
+	RejectFrom uint64 `json:"reject_from,omitempty"`
 }
 
 // collectStates explores the store alphabet and returns one shortest history per distinct state.
@@ -113,16 +121,29 @@ func c08Run(t *testing.T, run *vk.Run, c c08Case, pre *preState) {
 		}
 		contK = strings.Join(ks, "+")
 	}
-	feat := fmt.Sprintf("%s,%s,%s,txn=%v,reading=%v,cont=%s,fault=%v", kind, where, c.Cfg.BatchClass(), c.Cfg.Txn, c.Reading, contK, c.FailWrite >= 0)
+	fault := fmt.Sprint(c.FailWrite >= 0)
+	if c.RejectFrom > 0 {
+		fault = "handler-rejects"
+	}
+	feat := fmt.Sprintf("%s,%s,%s,txn=%v,reading=%v,cont=%s,fault=%s", kind, where, c.Cfg.BatchClass(), c.Cfg.Txn, c.Reading, contK, fault)
+	if c.Parallel {
+		feat += ",parallel=true"
+	}
 	viol := func(clause, format string, a ...any) {
 		run.Violate("C08/"+clause+"/"+feat, c, "%s [%d,%d) after [%s] on %v (head %d tail %d pending %v) cont [%s]: %s",
 			"DeleteRange", c.From, c.To, histString(c.Hist), c.Cfg, pre.head, pre.tail, pre.pending, histString(c.Cont), fmt.Sprintf(format, a...))
 	}
 	var handlers func(w *World)
-	if c.Reading {
-		handlers = func(w *World) { addHandlers(w, &handlerRec{Read: true}) }
+	var rec *handlerRec
+	if c.Reading || c.RejectFrom > 0 {
+		rec = &handlerRec{Read: c.Reading, Locked: c.Parallel}
+		handlers = func(w *World) { addHandlers(w, rec) }
 	}
 	runHist(t, run, "C08", c.Cfg, c.Hist, handlers, func(w *World) {
+		if c.RejectFrom > 0 {
+			rec.FailFromHeight = c.RejectFrom
+			defer func() { rec.FailFromHeight = 0 }()
+		}
 		if c.FailWrite >= 0 {
 			w.settle()
 			w.DS.FailWrites(w.DS.Writes()+c.FailWrite, 1)
@@ -150,7 +171,22 @@ func c08Run(t *testing.T, run *vk.Run, c c08Case, pre *preState) {
 			}
 			return
 		}
-		if err != nil && c.FailWrite < 0 {
+		if c.RejectFrom > 0 {
+			rec.FailFromHeight = 0 // the handler recovers before any retry
+			if err == nil {
+				viol("handler-error-swallowed", "handler rejected every height >= %d but DeleteRange returned nil", c.RejectFrom)
+				return
+			}
+			for h := c.RejectFrom; h < c.To && h <= n; h++ {
+				if pre.model[h] {
+					if o := w.Observe(); o.ByHeight[h] != "ok" || o.ByHash[h] != "ok" {
+						viol("partial-removed-rejected-header", "handler rejected height %d but it is no longer readable (by height %s, by hash %s)", h, o.ByHeight[h], o.ByHash[h])
+					}
+					break
+				}
+			}
+		}
+		if err != nil && c.FailWrite < 0 && c.RejectFrom == 0 {
 			viol("valid-range-rejected", "a %s range failed without any fault: %v", kind, err)
 			return
 		}
@@ -356,6 +392,9 @@ func TestC08(t *testing.T) {
 		if err != nil {
 			t.Fatal(err)
 		}
+		if rc.Parallel {
+			defer store.VerifSetDeleteRangeParallelThreshold(store.VerifSetDeleteRangeParallelThreshold(2))
+		}
 		pre := c08Pre(t, run, rc.Cfg, rc.Hist, rc.Reading)
 		if pre != nil {
 			c08Run(t, run, rc, pre)
@@ -416,6 +455,15 @@ func TestC08(t *testing.T) {
 						c08Run(t, run, cc, pre)
 						run.AddEval(1)
 					}
+					for rf := p[0]; rf < p[1] && rf <= pre.head && rf <= p[0]+2; rf++ {
+						if rf == 0 {
+							continue
+						}
+						rc := base
+						rc.RejectFrom = rf
+						c08Run(t, run, rc, pre)
+						run.AddEval(1)
+					}
 					if !it.reading {
 						nw := c08Writes(t, run, base)
 						for j := 0; j < nw; j++ {
@@ -444,4 +492,58 @@ func TestC08(t *testing.T) {
 	}
 	run.AddStates(int64(states))
 	run.Set("configs", cases)
+	c08ParallelPhase(t, run, depth, a, dl)
+}
+
+// c08ParallelPhase repeats the no-fault and handler-rejects cases with the parallel deletion path
+// forced by the threshold hook (ranges of at least 2 headers).
+func c08ParallelPhase(t *testing.T, run *vk.Run, depth int, a alphaOpts, dl *vk.Deadline) {
+	old := store.VerifSetDeleteRangeParallelThreshold(2)
+	defer store.VerifSetDeleteRangeParallelThreshold(old)
+	pcases := int64(0)
+	for _, cfg := range c08Configs(run) {
+		if cfg.Cache == 2 || cfg.Batch == 2 {
+			continue
+		}
+		cfg := cfg
+		r := collectStates(t, run, "C08", cfg, depth, a, dl)
+		q := vk.NewWorkQueue(len(r.Histories))
+		vk.Shards(t, vk.NumShards(), func(t *testing.T, shard int) {
+			for {
+				if dl.Hit() {
+					run.NotExhaustive("time budget hit in parallel delete battery of " + cfg.String())
+					return
+				}
+				i, ok := q.Next()
+				if !ok {
+					return
+				}
+				hist := r.Histories[i]
+				pre := c08Pre(t, run, cfg, hist, true)
+				if pre == nil {
+					continue
+				}
+				for _, p := range deletePairs(pre.head, pre.tail) {
+					if !refAccepts(pre.head, pre.tail, p[0], p[1]) || p[1]-p[0] < 2 {
+						continue
+					}
+					base := c08Case{Cfg: cfg, Hist: hist, From: p[0], To: p[1], Reading: true, FailWrite: -1, Parallel: true}
+					c08Run(t, run, base, pre)
+					run.AddEval(1)
+					atomic.AddInt64(&pcases, 1)
+					for rf := p[0]; rf < p[1] && rf <= pre.head; rf++ {
+						if rf == 0 {
+							continue
+						}
+						rc := base
+						rc.RejectFrom = rf
+						c08Run(t, run, rc, pre)
+						run.AddEval(1)
+						atomic.AddInt64(&pcases, 1)
+					}
+				}
+			}
+		})
+	}
+	run.Set("parallel_path_cases", pcases)
 }
